@@ -266,6 +266,10 @@ def check(F, rep, tier):
                 gs = mir.guards_of(psc, bi)
                 if any(d[0] == "discr" and "components::Var" in str(d[2]) and isinstance(pol, tuple) and pol[0] == "in" and "Timestamp" in pol[1] for d, pol, dd in gs): ts_err = True
                 if any(d[0] == "bin" and d[1] in ("Ge", "Lt") for d, pol, dd in gs): oob_err = True
+                # `let Some(component) = part.get(index) else { return Err(..) }`: the None arm of a checked lookup
+                for d, pol, dd in gs:
+                    if d[0] == "discr" and "Option<" in str(d[2]) and isinstance(pol, tuple) and (("None" in pol[1]) if pol[0] == "in" else ("Some" in pol[1])):
+                        if any(o.kind == "call" and (mir.callee(o.fn.blocks[o.data]["t"]) or "").endswith("::get") for o in mir.trace_place(psc, d[1], transparent=())): oob_err = True
         if ts_err: rep.ok("R05.6", "timestamp components are rejected", nontrivial_key="ts")
         else: rep.bad("R05.6", "timestamp-accepted", "process_schema_component no longer rejects Var::Timestamp", psc.where())
         if oob_err: rep.ok("R05.6", "index >= len is rejected", nontrivial_key="oob")
